@@ -144,6 +144,8 @@ REQUIRED_COUNTERS = [
     "br_pre_chat_status_400", "br_pre_chat_status_404", "br_pre_chat_status_499", "br_pre_chat_status_503", "br_pre_chat_status_500",
     "br_pre_openai_stream_of_single_body", "br_pre_openai_once_of_single_body", "br_pre_client_error", "br_pre_client_final_message",
     "fault_load/cap", "fault_load/cancel", "fault_load/queue", "fault_load/notexist", "groups_with_prestream_shapes",
+    # L2 comparisons that must have taken place
+    "l2_openai_compared_stream", "l2_openai_compared_once",
     # generator classes
     "end_ok", "end_err", "end_silent", "done_chunk_has_content", "tools_early_parse", "tools_whole_parses", "long_groups",
     "conv_last_t", "conv_last_A", "conv_last_a", "conv_last_s", "conv_last_u", "texts_all_splits", "corpus_groups",
@@ -165,6 +167,8 @@ def regenerate(ctx):
     """Tie 1: execute the real llm.DoneReason(i).String() for i = 0..7 and emit the table."""
     rc, out, outdir = ctx.go_test("./server/", OVERLAY, "^TestVerifC17(Table|Variant)$", env={"VERIF_C17_CLIENT_MAX": client_max_line(ctx)})
     rows = []
+    if rc != 0:
+        ctx.violation("driver-failed", "", "TestVerifC17Table/Variant (regenerated facts): " + out[-1200:], no_input=True)
     if rc == 0:
         for line in open(outdir + "/table.txt"):
             i, h = line.split()
@@ -210,7 +214,7 @@ def regenerate(ctx):
                (4 if probe.get("toolsIndex") and not probe.get("toolsStream") else 0) | (8 if probe.get("incomplete") else 0) | \
                (16 if probe.get("clientFixed") else 0) | (32 if probe.get("oaFinish") else 0)
         ctx.coverage["variant_probed_bits"] = bits
-        ctx.coverage["variant_expected_bits"] = int(os.environ.get("VERIF_C17_VARIANT", VARIANT))
+        ctx.coverage["variant_expected_bits"] = VARIANT
 
 
 def client_max_line(ctx):
@@ -240,13 +244,25 @@ def client_max_line(ctx):
     return n
 
 
+def variant_under_test(ctx):
+    """The variant the oracle models: the constant above; VERIF_C17_VARIANT overrides it only together with VERIF_C17_DEV=1
+    (validating a proposed fix on a patched scratch worktree) and is recorded in the evidence."""
+    ov = os.environ.get("VERIF_C17_VARIANT")
+    if ov is not None and os.environ.get("VERIF_C17_DEV") == "1":
+        ctx.coverage["variant_override"] = int(ov)
+        return int(ov)
+    if ov is not None:
+        ctx.coverage["variant_override_ignored"] = ov
+    return VARIANT
+
+
 def run(ctx):
     regenerate(ctx)
     climit = client_max_line(ctx)
     ctx.lean_check(MODULES, THEOREMS)
     ctx.coverage["theorems_about_the_tree"] = len(THEOREMS_TREE)
     ctx.coverage["theorems_historical_or_patch"] = THEOREMS_HISTORICAL_OR_PATCH
-    env = {"VERIF_C17_CLIENT_MAX": climit, "VERIF_CORPUS": os.path.join(core.ROOT, "corpus", "C17"), "VERIF_C17_VARIANT": os.environ.get("VERIF_C17_VARIANT", VARIANT), "VERIF_N": ctx.scale(7, 9), "VERIF_TEXTS": ctx.scale(16, 60), "VERIF_SAMPLES": ctx.scale(12, 64)}
+    env = {"VERIF_C17_CLIENT_MAX": climit, "VERIF_CORPUS": os.path.join(core.ROOT, "corpus", "C17"), "VERIF_C17_VARIANT": variant_under_test(ctx), "VERIF_N": ctx.scale(7, 9), "VERIF_TEXTS": ctx.scale(12, 60), "VERIF_SAMPLES": ctx.scale(12, 64)}
     if ctx.replay:
         env["VERIF_REPLAY"] = ctx.replay_line_file()
     rc, out, outdir = ctx.go_test("./server/", OVERLAY, "^TestVerifC17$", env=env, timeout=1500)
